@@ -184,7 +184,9 @@ def run(c):
     if stats["unrealised_cells"] > len(cells) // 10:
         c.fail_tool("%d of %d cells could not be concretised" % (stats["unrealised_cells"], len(cells)))
     if not stats["registrations"] or not stats["accepted"]:
-        c.fail_tool("vacuous replay: no accepted token / no registration observed")
+        # the generator produced must-accept cells (checked above); an implementation that accepts/registers nothing is judged
+        # by the P-monitors (rejected-valid), not a tool failure
+        c.drift("no accepted token / no registration observed in %d calls" % stats["calls"])
     c.cov["replayed"] = len(cells) - stats["unrealised_cells"]
     c.cov["evaluations"] = stats["calls"]
     c.cov["distinct_nontrivial"] = len(cells) - 8
